@@ -25,7 +25,7 @@ TIERS = {
     "quick": {"worlds": 300, "wall": 150, "cap": 30, "limit": 90.0},
     "thorough": {"worlds": 6000, "wall": 1700, "cap": 120, "limit": 240.0},
 }
-GATES = ("variant.debug", "variant.rows_displayed", "variant.touch", "variant.rcond", "variant.path", "observer.log_records", "observer.rows")
+GATES = ("silent.region_fault_fired", "variant.debug", "variant.rows_displayed", "variant.touch", "variant.rcond", "variant.path", "observer.log_records", "observer.rows")
 
 
 def _variant(rng):
@@ -48,11 +48,21 @@ def generate(rng, seed, index, tier):
     kw = gen.gen_params(rng, spec, x0, y0, p_knob=0.5, reporting=False)
     kw["iteration_limit"] = int(rng.integers(3, TIERS[tier]["cap"] + 1))
     kw = gen.quiet_params(kw)
+    faults = []
+    if rng.random() < 0.3:
+        # a persistent failing region (state-free, so extra evaluations made by observers cannot
+        # shift it): the start is outside of it, the trajectory may run into it
+        import numpy as np
+
+        a = np.round(rng.normal(size=spec["n"]), 2)
+        if np.any(a):
+            comp = str(rng.choice(["obj", "grad", "cons", "jac"])) if spec["m"] else str(rng.choice(["obj", "grad"]))
+            faults = [{"dev": "eval", "comp": comp, "kind": "nan", "region": {"a": a.tolist(), "b": float(a @ np.asarray(x0, float)) + float(rng.choice([0.05, 0.5]))}}]
     variants = [_variant(rng) for _ in range(6)]
     # one variant is always the loudest
     variants[0]["obs"]["level"] = "DEBUG"
     variants[0]["params"]["display_interval"] = 0.0
-    return gen.base_world(seed, ID, index, spec, x0, y0, kw, case={"variants": variants})
+    return gen.base_world(seed, ID, index, spec, x0, y0, kw, faults=faults, case={"variants": variants})
 
 
 def apply_variant(world, v):
@@ -60,7 +70,7 @@ def apply_variant(world, v):
     w["obs"] = v["obs"]
     w["params"].update(v["params"])
     w["clock"] = v["clock"]
-    w["faults"] = v.get("faults", [])
+    w["faults"] = list(world.get("faults", [])) + list(v.get("faults", []))
     return w
 
 
@@ -74,6 +84,8 @@ def case(world):
     R = execute(world)
     seam_violations(R, ID)
     execs = 1
+    if R.problem.fired:
+        bump("silent.region_fault_fired")
     bump("ref." + R.outcome.split("@")[0])
     rdig = R.traj_digest()
     if R.handler.records:
@@ -87,7 +99,7 @@ def case(world):
             continue
         S = execute(apply_variant(world, v))
         execs += 1
-        vsec += S.clock.t - 1000.0
+        vsec += S.clock.t - S.clock.t0
         lvl = v["obs"]["level"]
         rows = sum(1 for (w_, _) in S.clock.reads if w_.startswith("SimpleTimer.reset"))
         if v["params"].get("display_interval", 0.1) is None:
